@@ -342,7 +342,8 @@ func (g *gen) routeEntryFor(hostport string, extra bool) string {
 			s += ";" + g.alnum(1, 4)
 		}
 		if g.chance(12) {
-			s += ";" + g.alnum(1, 4) + "=\"" + g.alnum(1, 3) + " " + g.alnum(1, 3) + "\"" // a quoted value with a blank inside
+			// a quoted value with a blank inside, now and then next to a ';' (quoted: not a separator)
+			s += ";" + g.alnum(1, 4) + "=\"" + g.alnum(1, 3) + g.pick(" ", " ", "; ", " ;") + g.alnum(1, 3) + "\""
 		}
 	}
 	return s
@@ -377,6 +378,14 @@ func genRequest(g *gen, c *Cfg, o *relayGenOpts, learnedHosts []string) Op {
 	}
 	srcIP := topo.uas[g.intn(len(topo.uas))]
 	srcPort := g.pick2(5060, 5060, 5090, 40000+g.intn(1000), 65535, 32768, 1024+g.intn(100))
+	if g.chance(12) || o.focus == "C07" && g.chance(25) {
+		// two sources whose address and port give the same digits when written one after the other
+		if g.chance(50) {
+			srcIP, srcPort = "10.1.0.1", 25060
+		} else {
+			srcIP, srcPort = "10.1.0.12", 5060
+		}
+	}
 	if proto == "udp" && g.chance(7) {
 		// a request that one of the service's own backends originates, from its configured address and port
 		var bs []string
